@@ -22,6 +22,11 @@ const FROM_VEC = VEC.z;
 const ARR = array<u32, 3>(7u, 8u, 9u);
 const FROM_ARR = ARR[1];
 const MAT = mat2x2<f32>(1.0, 0.0, 0.0, 1.0);
+const ZERO_I = i32();
+const ZERO_U: u32 = u32();
+const ZERO_F = f32();
+const ZERO_B = bool();
+const ZERO_VEC = vec3<u32>();
 
 @compute @workgroup_size(1)
 fn main() {}
